@@ -2,7 +2,10 @@
 (quick tier), undo, and record whether it is (still) caught.  Generators change over time (new families shift the PRNG
 stream), so a seed that was caught once has to be re-run.
 
-    python harness/seedall.py [--only C16_m6,C02_m1] [--seed 0] > seedall.log
+    python harness/seedall.py [--only C16_m6,C02_m1] [--props C01,C02] [--seed 0] [--repo <scratch worktree of /repo>] > seedall.log
+
+With `--repo` the patches are applied to a scratch worktree (the checks run with SWCGEOM_REPO / PYTHONPATH pointing at it), so that
+several groups of properties can be re-run in parallel from separate copies of /verif without touching /repo.
 
 Writes seeded/<id>/recheck.json and prints one line per seed.  /repo must be clean before and is clean afterwards.
 """
@@ -37,6 +40,8 @@ def main():
     only = None
     start = None
     seed = "0"
+    REPO = "/repo"
+    props = None
     for i, a in enumerate(sys.argv):
         if a == "--only":
             only = set(sys.argv[i + 1].split(","))
@@ -44,8 +49,13 @@ def main():
             seed = sys.argv[i + 1]
         if a == "--from":
             start = sys.argv[i + 1]
-    rc, o = sh("git status --porcelain", cwd="/repo")
-    assert o.strip() == "", "/repo is not clean: " + o
+        if a == "--repo":
+            REPO = sys.argv[i + 1]
+        if a == "--props":
+            props = set(sys.argv[i + 1].split(","))
+    renv = {} if REPO == "/repo" else {"SWCGEOM_REPO": REPO, "PYTHONPATH": REPO}
+    rc, o = sh("git status --porcelain --untracked-files=no", cwd=REPO)
+    assert o.strip() == "", f"{REPO} is not clean: " + o
     _saved_evidence = evidence_backup()
     summary = {"caught_with_input": 0, "caught_no_input": 0, "missed": 0, "not_applicable": 0}
     for d in sorted((V / "seeded").iterdir()):
@@ -54,12 +64,14 @@ def main():
         pid = d.name.split("_")[0]
         if start and d.name < start:
             continue
-        rc, o = sh(f"git apply --check {d / 'patch.diff'}", cwd="/repo")
+        if props and pid not in props:
+            continue
+        rc, o = sh(f"git apply --check {d / 'patch.diff'}", cwd=REPO)
         how = "plain"
         if rc != 0:
             # a later fix: commit may have shifted the context by a line or two; a real conflict is NOT forced (3-way merges with
             # conflict markers once ran every later seed on a broken tree, §8)
-            rc, o = sh(f"git apply --check -C1 {d / 'patch.diff'}", cwd="/repo")
+            rc, o = sh(f"git apply --check -C1 {d / 'patch.diff'}", cwd=REPO)
             how = "C1"
         if rc != 0:
             rec = {"id": d.name, "applies": False, "why": o.strip()[-200:]}
@@ -67,12 +79,12 @@ def main():
             (d / "recheck.json").write_text(json.dumps(rec, indent=1) + "\n")
             print(d.name, "DOES NOT APPLY to the current /repo (kept for the record)")
             continue
-        sh(f"git apply {'-C1 ' if how == 'C1' else ''}{d / 'patch.diff'}", cwd="/repo")
+        sh(f"git apply {'-C1 ' if how == 'C1' else ''}{d / 'patch.diff'}", cwd=REPO)
         try:
-            rc, o = sh(f"./check {pid} --tier quick", cwd=V, env={"VERIF_SEED": seed}, timeout=6000)
+            rc, o = sh(f"./check {pid} --tier quick", cwd=V, env=dict(renv, VERIF_SEED=seed), timeout=6000)
         finally:
-            sh("git reset -q --hard HEAD", cwd="/repo")     # /repo has no uncommitted work of its own (asserted above)
-            rc2, o2 = sh("git status --porcelain", cwd="/repo")
+            sh("git reset -q --hard HEAD", cwd=REPO)     # /repo has no uncommitted work of its own (asserted above)
+            rc2, o2 = sh("git status --porcelain --untracked-files=no", cwd=REPO)
             assert o2.strip() == "", "/repo not restored: " + o2
         viol = [l for l in o.splitlines() if l.startswith("VIOLATION")]
         summ = [l for l in o.splitlines() if l.startswith(f"[{pid}]")]
@@ -90,9 +102,9 @@ def main():
         rec = {"id": d.name, "applies": True, "apply_mode": how, "seed": seed, "rc": rc, "state": state, "finding": finding, "summary": summ[-1] if summ else o[-300:]}
         (d / "recheck.json").write_text(json.dumps(rec, indent=1) + "\n")
         print(d.name, state, finding, flush=True)
-    rc, o = sh("git status --porcelain", cwd="/repo")
-    assert o.strip() == "", "/repo left dirty: " + o
-    sh("/venv/bin/python harness/regen_all.py", cwd=V)      # Gen/*.lean back to what the unchanged sources say
+    rc, o = sh("git status --porcelain --untracked-files=no", cwd=REPO)
+    assert o.strip() == "", f"{REPO} left dirty: " + o
+    sh("/venv/bin/python harness/regen_all.py", cwd=V, env=renv)      # Gen/*.lean back to what the unchanged sources say
     evidence_restore(_saved_evidence)
     print("SUMMARY", json.dumps(summary))
 
